@@ -5,7 +5,7 @@ tie:    hand-written model lean/AsyncFix/Model/Container.lean (+ Py/PyInt.lean),
         reply (return value / exception kind) and the full structure of every live container are diffed;
         Python's int(str) acceptor is compared on every code point (4 contexts) and on all short strings
         over the critical alphabet; the two Unicode tables, the FTag values and the `ignore_tags` literal
-        are regenerated (tools/gen_cont.py) before the build.
+        are regenerated (tools/gen_cont.py, picked up by tools/gen_lean.py) before the build.
 oracle: `RefCont`, a plain insertion-ordered map from int tags to str / list of RefCont that implements the
         sentences of the property directly; it never looks at the Lean model.
 
@@ -44,34 +44,6 @@ MODELLED_NOT_VERIFIED = [
 ]
 
 warnings.simplefilter("ignore")
-
-# ---------------------------------------------------------------------------------------------
-# translator plug-in (until tools/gen_lean.py calls it): regenerate PyUnicode.lean / FTags.lean
-# ---------------------------------------------------------------------------------------------
-_GEN_LOG = []
-
-
-def _run_generator():
-    sys.path.insert(0, os.path.join(C.VERIF, "tools"))
-    try:
-        import io
-        import contextlib
-
-        import gen_cont  # noqa
-
-        buf = io.StringIO()
-        with contextlib.redirect_stdout(buf):
-            rc = gen_cont.main()
-        _GEN_LOG.extend(buf.getvalue().strip().split("\n"))
-        return rc
-    except Exception as e:  # noqa
-        _GEN_LOG.append(f"gen_cont failed: {type(e).__name__}: {e}")
-        return 3
-    finally:
-        sys.path.pop(0)
-
-
-_GEN_RC = _run_generator()
 
 # ---------------------------------------------------------------------------------------------
 # objects <-> JSON <-> driver tokens
@@ -951,9 +923,6 @@ def shrink(seq, still_fails, budget=150):
 def correspondence(ctx):
     drv = C.Driver()
     dis = []
-    if _GEN_RC != 0:
-        dis.append({"input": "tools/gen_cont.py", "model": "translator refused", "impl": _GEN_LOG})
-    ctx.note("gen_cont: " + "; ".join(_GEN_LOG))
     n_int, d_int, n_strs = pyint_correspondence(ctx, drv)
     dis += d_int
     corpus = load_corpus()
